@@ -516,8 +516,11 @@ CLEAN = {"txn": "I", "copy": False, "gucs": [], "role": None, "stmts": [], "sql_
 def monitors(res, c):
     """model-free: process alive, canary served by a clean session, capacity restored. -> list of problems"""
     bad = []
+    if "harness_fault" in res:
+        # the harness itself could not run (its own main thread panicked: no socket / thread to be had, ...): not an observation of the pooler
+        return ["HARNESS-FAULT: %s" % str(res["harness_fault"])[:400]]
     if "harness_error" in res:
-        return ["process died or hung: %s" % str(res["harness_error"])[:300]]
+        return ["process died or hung: %s" % str(res["harness_error"])[:600]]
     if "start_error" in res:
         return ["pooler did not start: %s" % res["start_error"]]
     ev = res["events"]
@@ -763,14 +766,46 @@ def known_ids():
     return {e.get("id"): e for e in vlib.known_findings("C11") if e.get("status") == "known"}
 
 
+UNREPRODUCED = []     # first-run failures that did not show again when the same scenario was repeated alone (kept in the evidence)
+
+
+def run_confirmed(wire, scns, cases, extra_fail=None):
+    """run the scenarios 16-way parallel; a scenario whose monitors fail (or whose harness could not run) is repeated alone, twice:
+    a defect of the pooler is deterministic on these inputs and shows again, an accident of the loaded machine (no local port,
+    no thread, a scheduling stall past a timeout) does not.  Only a failure that shows in all three runs is reported."""
+    import time
+    res = W.run_scenarios(wire, scns, timeout=90)
+    for i, (scn, c) in enumerate(zip(scns, cases)):
+        probs = monitors(res[i], c) or (extra_fail(res[i], c) if extra_fail else [])
+        if not probs:
+            continue
+        for k in range(2):
+            time.sleep(1.5)
+            r2 = W.run_scenario(wire, scn, timeout=90)
+            p2 = monitors(r2, c) or (extra_fail(r2, c) if extra_fail else [])
+            if not p2:
+                UNREPRODUCED.append({"case": c.get("label"), "variant": c.get("variant"), "state": c.get("state"), "first_run": probs[:2], "repeat_that_passed": k + 1})
+                res[i] = r2
+                break
+    return res
+
+
+def viol(run, probs, what, payload):
+    """a HARNESS-FAULT (the harness could not run, three times) is a broken check, everything else a violation"""
+    if probs and probs[0].startswith("HARNESS-FAULT"):
+        run.broken.append("%s — %s" % (what[:200], probs[0]))
+    else:
+        run.violation("counterexample", what, payload)
+
+
 def run_batch(run, wire, cases, chk, rx, stats, label):
     scns = [scenario(c) for c in cases]
-    res = W.run_scenarios(wire, scns, timeout=90)
+    res = run_confirmed(wire, scns, cases)
     obs, exprs, live = [], [], []
     for c, r in zip(cases, res):
         probs = monitors(r, c)
         stats["evaluations"] += 1
-        if "harness_error" in r or "start_error" in r:
+        if "harness_error" in r or "start_error" in r or "harness_fault" in r:
             stats["monitor_fail"].append((c, probs, None))
             continue
         o = observe(r, c)
@@ -785,6 +820,20 @@ def run_batch(run, wire, cases, chk, rx, stats, label):
         stats["trans"].add((c["state"], c["cat"], kl))
         if probs:
             stats["monitor_fail"].append((c, probs, (o, val)))
+        if diffs:
+            import time
+            for k in range(2):
+                time.sleep(1.0)
+                r2 = W.run_scenario(wire, scenario(c), timeout=90)
+                if "events" not in r2:
+                    continue
+                o2 = observe(r2, c)
+                val2 = vlib.coq_eval("c11_re_" + label, PREAMBLE, [coq_expr(c, o2, chk, rx)])[0]
+                d2, _, _ = compare(c, o2, val2)
+                if not d2:
+                    UNREPRODUCED.append({"case": c.get("label"), "variant": c.get("variant"), "state": c.get("state"), "first_run": diffs[:2], "repeat_that_passed": k + 1})
+                    diffs = []
+                    break
         if diffs:
             stats["tie_fail"].append((c, diffs, (o, val)))
         else:
@@ -919,9 +968,18 @@ def nesting_cases():
 def nesting_probes(run, wire):
     """monitor-only (a process death is outside the model): the process survives, the sender is answered, the canary is served"""
     cases = nesting_cases()
-    res = W.run_scenarios(wire, [scenario(c) for c in cases], timeout=90)
+
+    def unanswered(r, c):
+        if "events" not in r:
+            return []
+        o = observe(r, c)
+        return (["the sender got no reply terminator (task: %s)" % o["task_raw"]] if not o["zs"] else []) + (["the sender's task panicked"] if o["task"] == "panic" else [])
+    res = run_confirmed(wire, [scenario(c) for c in cases], cases, unanswered)
     survived, answered, failures = 0, 0, []
     for c, r in zip(cases, res):
+        if "harness_fault" in r:
+            failures.append((c, monitors(r, c)))
+            continue
         if "harness_error" in r or "start_error" in r:
             failures.append((c, ["the pooler process died or hung: %s" % str(r.get("harness_error", r.get("start_error")))[:300]]))
             continue
@@ -937,8 +995,8 @@ def nesting_probes(run, wire):
         if probs:
             failures.append((c, probs))
     for c, probs in failures[:6]:
-        run.violation("counterexample", "one %s message with SQL nested %s (query parser on): %s" % ("Query" if "_Q_" in c["label"] else "Parse", c["label"], probs[0]),
-                      {"input": case_replay(c), "monitors": probs, "note": "process liveness is monitor-only: no executable model exhibits a stack overflow"})
+        viol(run, probs, "one %s message with SQL nested %s (query parser on): %s" % ("Query" if "_Q_" in c["label"] else "Parse", c["label"], probs[0]),
+             {"input": case_replay(c), "monitors": probs, "note": "process liveness is monitor-only: no executable model exhibits a stack overflow"})
     run.cov["nesting_probes"] = {"scenarios": len(cases), "process_survived": survived, "sender_answered": answered, "failures": len(failures),
                                  "depths": list(NEST_DEPTHS), "shapes": sorted(nest_shapes(1)), "messages": ["Q", "P+B+E+S"],
                                  "parser_on_by": ["pool setting", "SET SERVER ROLE TO 'auto'"],
@@ -1014,18 +1072,18 @@ def cross_client_probes(run, wire):
     state: the pool's and the servers' statement caches, the server connection's session parameters)"""
     out = {}
     pw = pool_wait_cases()
-    res = W.run_scenarios(wire, [pool_wait_scenario(c) for c in pw], timeout=90)
+    res = run_confirmed(wire, [pool_wait_scenario(c) for c in pw], pw)
     fails = []
     for c, r in zip(pw, res):
-        probs = monitors(r, dict(variant=c["variant"]))
+        probs = monitors(r, c)
         if probs:
             fails.append((c, probs))
     for c, probs in fails[:4]:
-        run.violation("counterexample", "sender %s at %s of (Parse known + Parse new + Sync)%s, config %s: %s" % (c["action"], c["point"], " while the batch waits for the pool" if c["held"] else "", c["variant"], probs[0]),
+        viol(run, probs, "sender %s at %s of (Parse known + Parse new + Sync)%s, config %s: %s" % (c["action"], c["point"], " while the batch waits for the pool" if c["held"] else "", c["variant"], probs[0]),
                       {"input": {"family": "pool_wait", "variant": c["variant"], "point": c["point"], "action": c["action"], "held": c["held"], "bytes_hex": c["bytes"].hex()}, "monitors": probs})
     out["pool_wait"] = {"scenarios": len(pw), "failures": len(fails)}
     sp = startup_param_cases()
-    res = W.run_scenarios(wire, [scenario(c) for c in sp], timeout=90)
+    res = run_confirmed(wire, [scenario(c) for c in sp], sp)
     fails, authed, set_seen = [], 0, 0
     for c, r in zip(sp, res):
         probs = monitors(r, c)
@@ -1037,8 +1095,8 @@ def cross_client_probes(run, wire):
         if probs:
             fails.append((c, probs))
     for c, probs in fails[:4]:
-        run.violation("counterexample", "startup parameters %s: %s" % (json.dumps(c.get("startup_params", c.get("raw_startup"))), probs[0]),
-                      {"input": case_replay(c), "monitors": probs})
+        viol(run, probs, "startup parameters %s: %s" % (json.dumps(c.get("startup_params", c.get("raw_startup"))), probs[0]),
+             {"input": case_replay(c), "monitors": probs})
     out["startup_params"] = {"scenarios": len(sp), "sender_authenticated": authed, "pooler_sent_SET_to_server": set_seen, "failures": len(fails)}
     out["note"] = ("monitor-only: the model classifies these streams as ordinary well-framed messages (Ok/continue); the checks are the canary's extended round "
                    "answered exactly as on a fresh pool (no 26000 / 42P05, no panic of its task), a clean session and the canary's own tracked parameters at its first statement; "
@@ -1105,8 +1163,9 @@ def check(run):
 
     # ---- decide
     for c, probs_, ow in stats["monitor_fail"][:6]:
-        run.violation("counterexample", "client bytes at state %s (%s, config %s) hurt someone else: %s" % (c["state"], c["label"], c["variant"], probs_[0]),
-                      {"input": case_replay(c), "monitors": probs_, "model": ow[1] if ow else None, "attacker_observation": ow[0] if ow else None})
+        viol(run, probs_, "client bytes at state %s (%s, config %s) hurt someone else: %s" % (c["state"], c["label"], c["variant"], probs_[0]),
+             {"input": case_replay(c), "monitors": probs_, "model": ow[1] if ow else None, "attacker_observation": ow[0] if ow else None,
+              "note": "seen in three runs of this scenario out of three (the first in the parallel batch, two alone)"})
     for c, diffs, (o, val) in stats["tie_fail"][:6]:
         # a disagreement is a witness only if a monitor failed too; otherwise it is a broken tie
         run.violation("tie-broken", "model and implementation disagree at state %s on %s (config %s): %s" % (c["state"], c["label"], c["variant"], diffs[0]),
@@ -1117,6 +1176,9 @@ def check(run):
     if not proof_ok and not run.violations and not run.broken:
         run.violation("proof-broken", "Hostile/Props.v no longer checks; no failing input found by the monitors over %d streams" % stats["evaluations"],
                       {"theorem": "Hostile/Props.v", "coq_log": log[-2500:]}, found_input=False)
+    run.cov["unreproduced_first_run_failures"] = UNREPRODUCED[:50]
+    if UNREPRODUCED:
+        run.log("%d first-run failure(s) did not show again when the scenario was repeated alone (machine load; listed in the evidence)" % len(UNREPRODUCED))
     run.cov["evaluations"] = stats["evaluations"]
     run.cov["distinct_nontrivial"] = len(stats["distinct"])
     run.cov["traces_validated_against_impl"] = stats["validated"]
